@@ -35,7 +35,7 @@ def get_zone(zid: str, provider=None):
 def walk_zone(args) -> list:
     """args = (zone id, mode) with mode 'full' or 'windows' (start..2100, then the last ten years)."""
     zid, mode, seed = args
-    from pyoda_time import Duration, Instant
+    from pyoda_time import Duration, Instant, Interval
 
     rnd = random.Random(seed)
     z = get_zone(zid)
@@ -84,6 +84,22 @@ def walk_zone(args) -> list:
                     fl["instant_before_start_is_outside"] = (iv.start - eps) not in iv and before != iv
                 except Exception:  # noqa: BLE001
                     fl["instant_before_start_is_outside"] = False
+            # the interval's own derived properties: duration, local start and end (ISO), standard offset
+            pr = {}
+            try:
+                if iv.has_start and iv.has_end:
+                    pr["duration"] = proj.t3_duration(iv.duration)
+                if iv.has_start:
+                    ls = iv.iso_local_start
+                    pr["local_start"] = [ls.date._days_since_epoch, ls.nanosecond_of_day // 10**9, ls.nanosecond_of_day % 10**9]
+                if iv.has_end:
+                    le = iv.iso_local_end
+                    pr["local_end"] = [le.date._days_since_epoch, le.nanosecond_of_day // 10**9, le.nanosecond_of_day % 10**9]
+            except OverflowError:
+                pr["local_overflow"] = True      # a local bound outside the local time line (within 18 h of the ends of time)
+            except Exception as ex:  # noqa: BLE001
+                pr["exc"] = type(ex).__name__
+            e["props"] = pr
             e["flags"] = fl
             walked.append(iv)
             if zid.startswith("fixed:"):
@@ -113,6 +129,28 @@ def walk_zone(args) -> list:
                 return w
         return None
 
+    # get_zone_intervals over a window must list exactly the walked intervals that overlap it, in order
+    if len(walked) > 2 and mode != "windows":
+        for _ in range(4):
+            i0 = rnd.randrange(len(walked))
+            i1 = min(len(walked) - 1, i0 + rnd.randint(0, 6))
+            a, b = walked[i0], walked[i1]
+            lo = (a.start if a.has_start else Instant.min_value)
+            hi = (b.end if b.has_end else Instant.max_value)
+            s0 = lo + (((a.end if a.has_end else Instant.max_value) - lo) / rnd.randint(2, 5)) if rnd.random() < 0.7 else lo
+            e0 = hi - ((hi - (b.start if b.has_start else Instant.min_value)) / rnd.randint(2, 5)) if rnd.random() < 0.7 else hi
+            if e0 <= s0:
+                continue
+            ev = {"op": "ivs", "from": t3i(s0), "to": t3i(e0), "want_first": t3i(a._raw_start), "want_n": i1 - i0 + 1 - (1 if e0 == (b.start if b.has_start else None) else 0)}
+            try:
+                got = list(z.get_zone_intervals(start=s0, end=e0) if rnd.random() < 0.5 else z.get_zone_intervals(interval=Interval(s0, e0)))
+                ev["n"] = len(got)
+                ev["same"] = got == walked[i0:i0 + len(got)]
+                ev["starts"] = [t3i(g._raw_start) for g in got]
+                ev["ends"] = [t3i(g._raw_end) for g in got]
+            except Exception as ex:  # noqa: BLE001
+                ev["exc"] = type(ex).__name__
+            evs.append(ev)
     if len(walked) > 1:
         pts = []
         for w in rnd.sample(walked, min(len(walked), 40)):
